@@ -18,12 +18,13 @@ ASSUMPTIONS = [
     "no validator is frozen and the validator set is never empty in the generated histories; storage never fails mid-distribution",
 ]
 
-TRIGGERS = {2: "C14.stale_fund_records", 3: "C14.negative_fund_amount"}
+TRIGGERS = {2: "C14.stale_fund_records", 3: "C14.negative_fund_amount", 4: "C14.pass_percentage_drift"}
 CODES = {1: "stage went backwards", 2: "proposal id held by two stores", 3: "recorded total differs from the sum of the funder records",
          4: "voting although the total is below the goal", 5: "expired (insufficientVotes) although not in voting with its deadline behind the block height",
          6: "snapshot validators/powers changed after voting began", 7: "passed store without completedYes / finalized with funds left",
          8: "deadline, goal, type, proposer or pass percentage of a proposal changed", 9: "balances + fee pool + proposal funds grew",
          10: "funder records survive the distribution",
+         12: "a configuration update came into force for a proposal that is not recorded as passed (outcome completedYes)",
          11: "declared insufficientFunds (refundable) although the goal was met or the funding deadline had not passed"}
 
 
@@ -109,7 +110,7 @@ def run(ctx):
         by[k] = by.get(k, 0) + 1
     cov.update({
         "evaluations": rep["steps"], "distinct_nontrivial": rep["distinct_cases"],
-        "rule": "2 scripted histories (corpus case of the fixed finding C14.public_expire_votes; honest life with two finalisations in one block and zero withdrawals) + seeded "
+        "rule": "4 scripted histories (corpus case of the fixed finding C14.public_expire_votes; honest life with two finalisations in one block and zero withdrawals; negative contribution; option pass percentage raised during a vote, on a genesis with production-range options) + seeded "
                 "random governance histories on the whole application (Replica): create/fund/vote/cancel/withdraw/public expire/public "
                 "finalize from proposers, funders, strangers, a poor account, validators and non-validators, stake changes, blocks past "
                 "the deadlines; stage-biased generator; distinct = distinct operation sequences",
